@@ -32,7 +32,7 @@ ASSUMPTIONS = [
     "absolute-value sum",
     "ModEv=EXA only; the alpha_s clause is applied only where the reference coupling stays below 0.5 (perturbative domain)",
 ]
-BUDGET = {"quick": {"examples": 1600, "wall": 300}, "thorough": {"examples": 50000, "wall": 2400}}
+BUDGET = {"quick": {"examples": 1600, "wall": 300}, "thorough": {"examples": 80000, "wall": 2400}}
 MANDATORY = {
     t: ["nontrivial", "source:real", "source:synthetic", "clause:formula", "clause:linear", "clause:absent", "clause:theory",
         "theory:FFNS", "theory:ZM-VFNS", "theory:crossing", "theory:matching-nontrivial", "theory:FFNS-nfref-differs", "mixed-key", "xs"]
